@@ -67,6 +67,7 @@ class Run:
         t0 = time.time()
         s = z3.Solver()
         s.set('timeout', FEAS_TIMEOUT_MS)
+        s.set('rlimit', 3000000)
         for a in self.axioms:
             s.add(a)
         for p in self.pc:
@@ -86,6 +87,7 @@ class Run:
         res = None
         s = z3.Solver()
         s.set('timeout', 800)
+        s.set('rlimit', 3000000)
         for a in self.axioms:
             s.add(a)
         for p in self.pc:
